@@ -36,6 +36,7 @@ def dispatch (line : String) : Verdict :=
   | "C09" :: args => handVerdict "C09" args r
   | "C10" :: args => handVerdict "C10" args r
   | "C11" :: args => handVerdict "C11" args r
+  | "C01" :: "e2e" :: rest => c02 ("e2e" :: rest) r
   | "C01" :: args => handVerdict "C01" args r
   | "C13" :: args => c13 args r
   | "C14" :: args => c14 args r
